@@ -91,6 +91,39 @@ if os.environ.get("LSPROTOCOL_VERIF_SIM") == "1" and os.environ.get("LSPV_CONF")
             _dt.datetime, _dt.date = datetime, date
             log({"ev": "clock", "offset": off})
 
+        # ---- machine speed: discrete-event time.  Every reading of a clock advances simulated time by a
+        # fixed step (tiny: a fast, idle machine; large: a slow or loaded one); nothing reads the real
+        # monotonic clock any more, so anything bounded by elapsed time behaves as a function of the
+        # simulated machine and replays exactly.  Sleeping costs simulated, not real, time.
+        step = conf.get("clock_step")
+        if step:
+            import time as _time2
+
+            step = float(step)
+            ticks = [0]
+
+            def _adv():
+                ticks[0] += 1
+                return ticks[0] * step
+
+            m0, p0, c0 = _time2.monotonic(), _time2.perf_counter(), _time2.process_time()
+            t0 = _time2.time()  # already shifted by the simulated offset, if any
+            _time2.monotonic = lambda: m0 + _adv()
+            _time2.perf_counter = lambda: p0 + _adv()
+            _time2.process_time = lambda: c0 + _adv()
+            _time2.thread_time = lambda: c0 + _adv()
+            _time2.monotonic_ns = lambda: int((m0 + _adv()) * 1e9)
+            _time2.perf_counter_ns = lambda: int((p0 + _adv()) * 1e9)
+            _time2.process_time_ns = lambda: int((c0 + _adv()) * 1e9)
+            _time2.time = lambda: t0 + _adv()
+            _time2.time_ns = lambda: int((t0 + _adv()) * 1e9)
+
+            def _sleep(secs):
+                ticks[0] += int(float(secs) / step) + 1
+
+            _time2.sleep = _sleep
+            log({"ev": "clock_step", "step": step})
+
         # ---- machine identity: cpu count, host name, user (what another machine would answer) -------
         fake = conf.get("fake_machine") or {}
         if fake:
